@@ -213,22 +213,28 @@ def snapshot(root, names=None, contents=None):
     contents = contents or Contents()
     root = root if isinstance(root, bytes) else root.encode()
     out = []
-    def walk(d, rel):
+    MAXDEPTH = 40          # deeper than any scenario; a runaway copy is reported as one marker entry, not followed
+    stack = [(root, [])]
+    while stack:
+        d, rel = stack.pop()
         try:
             ents = sorted(os.listdir(d))
         except OSError:
-            return
+            continue
         for n in ents:
             p = os.path.join(d, n)
             r = rel + [names.abs(n)]
             try:
                 e = entry_of(p, r, names, contents, root)
-            except OSError:
+            except (OSError, ValueError):
                 continue
             out.append(e)
             if e["k"] == "dir":
-                walk(p, r)
-    walk(root, [])
+                if len(r) >= MAXDEPTH:
+                    out.append(dict(e, p=r + ["?too-deep"], c="?"))
+                else:
+                    stack.append((p, r))
+    out.sort(key=lambda e: e["p"])
     return out
 
 # ---------------------------------------------------------------- cells (data plane)
